@@ -38,7 +38,7 @@ def shards(tier, seed):
     if tier == "quick":
         n_sh, n, budget = 8, 60, 45
     else:
-        n_sh, n, budget = 16, 500, 420
+        n_sh, n, budget = 16, 5000, 420
     return [{"name": f"in{i}", "threads": 2, "timeout": budget * 4 + 300,
              "params": {"seed": seed, "shard": i, "n": n, "budget_s": budget}}
             for i in range(n_sh)] + [{"name": "corpus", "threads": 1, "timeout": 600,
